@@ -280,6 +280,20 @@ func streams(maxLen int) {
 					if !seq(sa.ToArray(), a) || !seq(sb.ToArray(), b) {
 						bad("Stream", "operand-modified", "set operations changed an operand of %s", d)
 					}
+					// the results are the caller's: working on them (SortByIndex sorts its receiver's array in place
+					// before restoring it; the interface{} Remove is the documented in-place mutator) and asking the
+					// same questions of the same operands again gives the same answers
+					for _, rs := range []coll.Stream{sa.Intersection(sb), sa.Minus(sb), sa.Distinct(), sb.Distinct(), sa.Extend(sb).Distinct()} {
+						rs.SortByIndex(func(s coll.Stream, i, j int) bool { return s.Get(i) > s.Get(j) })
+						if f == 1 && rs.Len() > 0 && rs.ID() != sa.ID() && rs.ID() != sb.ID() { // (a result may be the operand itself, e.g. Minus(empty))
+							rs.Remove(0)
+						}
+					}
+					again := res{sa.Intersection(sb).ToArray(), sa.Minus(sb).ToArray(), sa.Distinct().ToArray(), sa.Extend(sb).Distinct().ToArray(),
+						sa.IsSubset(sb), sa.IsSuperset(sb), sa.Contains(1)}
+					if fmt.Sprint(again) != fmt.Sprint(out[f]) || !seq(sa.ToArray(), a) || !seq(sb.ToArray(), b) {
+						bad("Stream", "law|after-working-on-results", "set operations on %s answered %+v, and %+v after their earlier results had been sorted by index (operands now %v, %v)", d, out[f], again, sa.ToArray(), sb.ToArray())
+					}
 					// the same (derived, hence spare-capacity) operand in two unions: the first result must keep its elements
 					base := mk(append(append([]int{}, a...), -9, -9, -9, -9)).RemoveItem(-9) // 4 spare slots (the sentinel occurs in no operand)
 					u1 := base.Extend(sb)
